@@ -201,12 +201,28 @@ Fixpoint mask_loop (svd_fun : nat -> mat -> triple F) (d2 : nat) (mask : mat) (i
             mask_loop svd_fun d2 mask it (S call) M' (svd_fun call M')
   end.
 
-Definition svd_interface (svd_fun : nat -> mat -> triple F) (meth : method) (d2 : nat) (M : mat) (n : option nat)
+(* The dispatch of svd_interface: method name -> the function that is run.
+     if method == "truncated_svd": svd_fun = truncated_svd   elif method == "symeig_svd": svd_fun = symeig_svd
+     elif method == "randomized_svd": svd_fun = randomized_svd   elif callable(method): svd_fun = method   else: raise ValueError
+   (the table is re-derived from the Python ast on every run and proved equal to `dispatch`). *)
+Inductive fname := FTruncated | FSymeig | FRandomized | FUser.
+Definition dispatch (meth : method) : option fname :=
+  match meth with
+  | MTruncated => Some FTruncated
+  | MSymeig => Some FSymeig
+  | MRandomized => Some FRandomized
+  | MCallable => Some FUser
+  | MUnknown => None
+  end.
+
+(* funs f k M: the answer of function f (with this request's n_eigenvecs / kwargs) on the k-th call of this run, handed M *)
+Definition svd_interface (funs : fname -> nat -> mat -> triple F) (meth : method) (d2 : nat) (M : mat) (n : option nat)
     (flip_sign u_based : bool) (nn : option nntype) (mask : option mat) (iters : nat) (sq : F -> F) (eps : F)
   : res (triple F) :=
-  match meth with
-  | MUnknown => Err
-  | _ =>
+  match dispatch meth with
+  | None => Err
+  | Some f =>
+    let svd_fun := funs f in
     let t0 := svd_fun 0 M in
     let '(M1, t1) := match mask, n with
                      | Some msk, Some _ => mask_loop svd_fun d2 msk iters 1 M t0
@@ -216,4 +232,8 @@ Definition svd_interface (svd_fun : nat -> mat -> triple F) (meth : method) (d2 
     let '(U, V) := match nn with Some ty => make_svd_non_negative sq eps M1 U Sg V ty | None => (U, V) end in
     Ok (U, Sg, V)
   end.
+
+(* the table of functions of one request: the three built-in methods applied to this request's arguments, and a callable *)
+Definition svd_funs (tr sy ra us : nat -> mat -> triple F) (f : fname) : nat -> mat -> triple F :=
+  match f with FTruncated => tr | FSymeig => sy | FRandomized => ra | FUser => us end.
 End Num.
